@@ -44,6 +44,13 @@ LeafParses(leaf) ==
       [] leaf.kind = "custom" -> leaf.pt \notin 200..206 /\ Size(leaf) >= leaf.min
       [] OTHER -> TRUE
 
+\* the tiling of a compound input: computed, or for very long inputs a generator hint VALIDATED in one pass
+TilingFor(ev) ==
+    IF Has(ev, "hint")
+    THEN IF IsTilingWitness(ev.b, ev.hint) THEN ev.hint
+         ELSE Assert(FALSE, << "TOOL-ERROR: invalid tiling hint at line", l >>)
+    ELSE Tiling(ev.b)
+
 \* ---- conformance of one logged event in the current state
 ParseEvConf(ev) ==
     /\ P("C01") => ev.panics = <<>>
@@ -112,7 +119,7 @@ Conf(ev) ==
       [] ev.op = "parse"       -> ParseEvConf(ev)
       [] ev.op = "parse_all"   -> ParseAllConf(ev)
       [] ev.op = "parse_pad"   -> ParsePadConf(ev)
-      [] ev.op = "cparse"      -> CParseConf(ev.b, ev.res)
+      [] ev.op = "cparse"      -> CParseConf(ev.b, ev.res, TilingFor(ev))
       [] ev.op = "cnext"       -> IF cit.valid THEN CNextConf(cit, ev) ELSE ev.res.t = "closed"
       [] ev.op = "nack_open"   -> (P("C01") \/ P("C15")) => IsOk(ev.res)
       [] ev.op = "nack_next"   -> NackNextConf(nit.its[ev.it + 1], ev.res)
@@ -146,7 +153,7 @@ Update(ev) ==
             /\ cit' = CitAfterParse(ev.b, ev.res,
                          IF RtCtx(ev) /\ bld.cfg.kind = "compound" /\ ev.b = img
                             /\ \A i \in 1..Len(Leaves(bld.cfg)) : LeafParses(Leaves(bld.cfg)[i])
-                         THEN Leaves(bld.cfg) ELSE <<>>)
+                         THEN Leaves(bld.cfg) ELSE <<>>, TilingFor(ev))
             /\ UNCHANGED << bld, ann, wr, img, nit >>
       [] ev.op = "cnext" -> cit' = CitAfterNext(cit, ev.res) /\ UNCHANGED << bld, ann, wr, img, nit >>
       [] ev.op = "nack_open" -> nit' = [ws |-> NackWordsOf(ev.b), its |-> <<>>] /\ UNCHANGED << bld, ann, wr, img, cit >>
@@ -162,12 +169,26 @@ Update(ev) ==
             /\ UNCHANGED << bld, ann, wr, img, cit >>
       [] OTHER -> UNCHANGED vars
 
+\* Classification of a nonconforming event for the known-findings file: a specific signature computed
+\* from the abstract state, "-" when the event is not of a recorded class.
+RECURSIVE OversizeLeaf(_)
+OversizeLeaf(c) ==
+    IF c.kind = "compound"
+    THEN LET bad == {i \in 1..Len(c.members) : TooBig(c.members[i])} IN OversizeLeaf(c.members[Min(bad)])
+    ELSE IF c.kind \in {"tfb", "pfb"} THEN c.kind \o "/" \o c.fci.f ELSE c.kind
+FindingClass(ev) ==
+    IF /\ ev.op \in {"calc_size", "write_into", "write_twice"}
+       /\ ~IsNone(bld.cfg) /\ LocalRules(bld.cfg) = {} /\ TooBig(bld.cfg)
+       /\ IsOk(ev.res) /\ ev.res.n = Size(bld.cfg)
+    THEN "oversize-accepted:" \o OversizeLeaf(bld.cfg)
+    ELSE "-"
+
 TraceNext ==
     \/ /\ l <= NRec
        /\ LET ev == Rec[l]
           IN  IF Conf(ev)
               THEN Update(ev) /\ l' = l + 1 /\ nbad' = nbad
-              ELSE /\ PrintT(<< "NONCONFORMING", l, ev.op >>)
+              ELSE /\ PrintT(<< "NONCONFORMING", l, ev.op, FindingClass(ev) >>)
                    /\ ResetState /\ l' = NextReset(l) /\ nbad' = nbad + 1
     \/ /\ l = NRec + 1
        /\ PrintT(<< "TRACE-END", NRec, nbad >>)
